@@ -189,7 +189,15 @@ def run(res):
 def replay(res, payload):
     for f in payload.get("failures", []) + payload.get("correspondence", []):
         case = f.get("case", {})
+        import props.C19 as C19
+        import props.C01 as C01
         if "mode" in case:
             res.absorb(scene_case(dict(seed=case["seed"], idx=case["idx"], mode=case["mode"], max_patches=36)))
         elif case.get("witness"):
-                res.absorb(wrap_witness({}))
+            res.absorb(wrap_witness({}))
+        elif C19.replay_case(res, case):
+            pass
+        elif "N" in case and "shift" in case:
+            res.absorb(prim_case(dict(seed=case["seed"], idx=case["idx"])))
+        elif "seed" in case and "idx" in case:
+            res.absorb(C01.kernel_case(dict(seed=case["seed"], idx=case["idx"])))
